@@ -145,9 +145,12 @@ def _ir_input(ir, a, with_python=False):
     d["type"] = S.type_str(a.type)
     d["has_default"] = a.has_default
     if a.has_default:
-        st, val = refcoerce.coerce_literal(ir, a.type, a.default)
-        assert st == "ok", (a.name, a.default, val)
-        d["default"] = cval(val)
+        if hasattr(a, "py_default"):
+            d["default"] = a.py_default   # annotated on the source IR (survives renames / filtering)
+        else:
+            st, val = refcoerce.coerce_literal(ir, a.type, a.default)
+            assert st == "ok", (a.name, a.default, val)
+            d["default"] = cval(val)
     else:
         d["default"] = None
     d["description"] = a.description
@@ -328,3 +331,22 @@ def closure_problems(schema):
             if schema.types.get(o.name) is not o:
                 problems.append(("stale-object:implementations", "%s implements %s" % (o.name, iname)))
     return problems, edges[0]
+
+
+def annotate_defaults(ir):
+    """Record, on every input value of the IR, the canonical python value of its declared default
+    (so that copies of the IR with renamed or removed members still describe the same default)."""
+    def ann(a):
+        if a.has_default:
+            st, val = refcoerce.coerce_literal(ir, a.type, a.default)
+            assert st == "ok", (a.name, a.default, val)
+            a.py_default = cval(val)
+    for t in ir.types.values():
+        for f in t.fields:
+            for a in f.args:
+                ann(a)
+        for f in t.input_fields:
+            ann(f)
+    for d in ir.directives.values():
+        for a in d.args:
+            ann(a)
